@@ -71,20 +71,20 @@ type mainInst struct {
 }
 
 type mainWorld struct {
-	p       *Plan
-	W       *World
-	stubs   []*tileStub
-	sn      *SimNet
-	store   persistence.LogStatePersistence
-	dbPath  string
-	dir     string
-	inst    *mainInst
+	p        *Plan
+	W        *World
+	stubs    []*tileStub
+	sn       *SimNet
+	store    persistence.LogStatePersistence
+	dbPath   string
+	dir      string
+	inst     *mainInst
 	interval time.Duration
-	witPub  WitKey
-	signers []note.Signer
-	witV    note.Verifier
-	events  []string
-	opCfg   omniwitness.OperatorConfig
+	witPub   WitKey
+	signers  []note.Signer
+	witV     note.Verifier
+	events   []string
+	opCfg    omniwitness.OperatorConfig
 }
 
 func (m *mainWorld) logf(format string, a ...any) {
@@ -218,11 +218,11 @@ func (m *mainWorld) cleanup() {
 // ---------------------------------------------------------------- C14
 
 type c14Result struct {
-	viol   []Violation
-	infra  string
-	events []string
-	stats  Stats
-	sample any
+	viol     []Violation
+	infra    string
+	events   []string
+	stats    Stats
+	sample   any
 	distinct []string
 }
 
@@ -522,14 +522,14 @@ func init() {
 			return out
 		},
 		Components: map[string]string{
-			"omniwitness.Main (errgroup wiring, witness map, feeders, HTTP server, shutdown)": "real",
+			"omniwitness.Main (errgroup wiring, witness map, feeders, HTTP server, shutdown)":                                                 "real",
 			"internal/feeder/sumdb, internal/feeder/tiles (+ tessera client proof builder, x/mod tlog), internal/feeder.Run/FeedOnce/backoff": "real",
-			"internal/http + net/http.Server on an in-memory net.Pipe listener": "real",
-			"internal/witness + in-memory / file-backed SQLite persistence":     "real",
-			"log servers": "harness stubs (SumDB and tlog-tiles) over the reference tree; validate every tile path",
-			"outbound network": "simnet with class-keyed seeded faults",
+			"internal/http + net/http.Server on an in-memory net.Pipe listener":                                                               "real",
+			"internal/witness + in-memory / file-backed SQLite persistence":                                                                   "real",
+			"log servers":                       "harness stubs (SumDB and tlog-tiles) over the reference tree; validate every tile path",
+			"outbound network":                  "simnet with class-keyed seeded faults",
 			"clock, tickers, timeouts, backoff": "synctest fake clock",
-			"bastion feeder, distributor": "not started in this check (no bastion address / distributor URL configured)",
+			"bastion feeder, distributor":       "not started in this check (no bastion address / distributor URL configured)",
 		},
 		Assumptions: []string{"goroutines of different feeders are not individually scheduled here; network faults are keyed by request class and occurrence so outcomes do not depend on cross-feeder interleaving", "an in-memory witness forgets on restart by design; never-backwards is asserted on SQLite only"},
 	})
